@@ -60,4 +60,13 @@ theorem written :
     argOf "apply_channel_mask" "cwrite" "arr" = some "data" ∧ argOf "extract_samps" "cwrite" "arr" = some "data" := by
   decide
 
+/-- the three delay-shifting loops start from the SAME preparation: the header's delays for `dm`, referred to the
+    earliest channel (so that none is negative, whatever the band order or the sign of the DM), the overlap is their
+    maximum and the effective gulp at least twice the overlap -/
+theorem delay_prep :
+    let D := "self.header.get_dmdelays(dm)-min(0,int(self.header.get_dmdelays(dm).min()))"
+    delayPrep = ["dedisperse", "subband", "fold"].map (fun m =>
+      (m, D, "int((" ++ D ++ ").max())", "max(2*int((" ++ D ++ ").max()),gulp)")) := by
+  decide
+
 end SppModel.Tie.StreamCalls
